@@ -430,6 +430,117 @@ fn operand_stack_boundary(ctx: &Ctx, active: &[Finding]) -> (usize, Vec<(String,
     (n, violations, hist)
 }
 
+
+/// The overflow of the operand stack met exactly where a new frame is entered, and *not caught*: the error
+/// report (class, message, one trace entry per active call) must be made without a panic whatever the
+/// frame and instruction the overflow was noticed at.  For each construct that pushes values and enters a
+/// frame without an instruction of the caller in between - a plain call, an import (the module body), a for
+/// loop over a user-defined iterable (`iter`, `next`), a constructor, a method, a library function that calls
+/// back, a fiber - the number of pending values at the bottom of a 31-level recursion is first bisected for
+/// the point where the program starts to overflow (wherever the interpreter draws that line), then every
+/// count within 20 of it is run.
+fn uncaught_overflow_at_frame_entry(ctx: &Ctx) -> (usize, Vec<(String, serde_json::Value)>) {
+    let nils = |n: usize| vec!["nil"; n].join(", ");
+    let leaves: Vec<(&'static str, &'static str, &'static str)> = vec![
+        ("plain call", "fn leaf() { return 0; }\n", "leaf()"),
+        ("import", "fn leaf() { import \"zz_ok\"; return 0; }\n", "leaf()"),
+        ("import at the level itself", "", "(|| { import \"zz_ok\"; return 0; })()"),
+        ("for over a user-defined iterable", "#[constructor(new)]\nclass It { fn iter(self) { return self; } fn next(self) { return StopIter.new(); } }\nvar it = It.new();\nfn leaf() { for x in it { } return 0; }\n", "leaf()"),
+        ("constructor", "class K { #[constructor] fn new(self, a) { self.a = a; } fn m(self) { return self.a; } }\nfn leaf() { return K.new(1); }\n", "leaf()"),
+        ("method of a fresh instance", "class K { #[constructor] fn new(self, a) { self.a = a; } fn m(self) { return self.a; } }\nfn leaf() { return K.new(1).m(); }\n", "leaf()"),
+        ("library function calling back", "fn leaf() { return [1, 2].iter().map(|e| e + 1).collect(); }\n", "leaf()"),
+        ("fiber", "fn leaf() { return Fiber.new(|| 5).call(); }\n", "leaf()"),
+        ("string interpolation of a call", "fn one() { return 1; }\nfn leaf() { return \"a${one()}b${one()}\"; }\n", "leaf()"),
+    ];
+    let source = |decl: &str, call: &str, k: usize| -> String {
+        let a = k.min(254);
+        let b = (k - a).min(254);
+        let m = k - a - b;
+        // k pending values (three nested literals) around the leaf's call
+        let inner = if m > 0 { format!("[{}, {}]", nils(m), call) } else { format!("[{}]", call) };
+        let mid = if b > 0 { format!("[{}, {}]", nils(b), inner) } else { format!("[{}]", inner) };
+        let bottom = if a > 0 { format!("[{}, {}]", nils(a), mid) } else { format!("[{}]", mid) };
+        format!("{}fn f(n) {{\n  if n == 0 {{\n    return {};\n  }}\n  return ({}, ({}, f(n - 1)));\n}}\nvar t = f(31);\nprint(\"completed\");\n", decl, bottom, nils(254), nils(254))
+    };
+    let n_leaves = leaves.len();
+    let results = par_map(&ctx.runner_checked, ctx.workers.min(n_leaves), leaves.into_iter(), |runner, _i, (name, decl, call)| {
+        runner.timeout = std::time::Duration::from_secs(60);
+        let mut modules = BTreeMap::new();
+        modules.insert("zz_ok".to_string(), "var ok = 1;\n".to_string());
+        let mut runs = 0usize;
+        let mut violations: Vec<(String, serde_json::Value)> = Vec::new();
+        // 0 = completed, 1 = overflow reported, 2 = something else (a violation)
+        let mut probe = |runner: &mut crate::pool::Runner, k: usize, violations: &mut Vec<(String, serde_json::Value)>| -> u8 {
+            let src = source(decl, call, k);
+            let mut req = Request { op: "run".into(), snippets: vec![src.clone()], modules: modules.clone(), fuel: Some(50_000_000), ..Default::default() };
+            let obs = runner.call(&mut req);
+            let (class, problem): (u8, Option<String>) = match &obs {
+                Obs::Resp(r) => match r.results.get(0) {
+                    Some(res) => match &res.outcome {
+                        proto::Outcome::Ok if res.out == vec!["completed".to_string()] => (0, None),
+                        proto::Outcome::Err { kind, messages } if kind == "IndexError" && messages.first().map(|m| m == "Unhandled IndexError: Stack overflow.").unwrap_or(false) && messages.len() >= 2 && messages[1..].iter().all(|m| m.starts_with("[module \"")) => (1, None),
+                        proto::Outcome::Panic { msg } => (2, Some(format!("interpreter panicked while reporting an uncaught stack overflow: {}", msg))),
+                        o => (2, Some(format!("printed {:?} and ended with {:?}", res.out, o))),
+                    },
+                    None => (2, Some("no result".into())),
+                },
+                other => (2, Some(format!("run ended in {}", other.describe()))),
+            };
+            if let Some(p) = problem {
+                violations.push((format!("[uncaught_overflow_at_frame_entry: {}, {} pending values] {}", name, k, p), json!({"family": "uncaught_overflow_at_frame_entry", "cell": format!("{} {}", name, k), "request": {"op": "run", "snippets": [src], "modules": modules}, "runner": "checked", "problem": p})));
+            }
+            class
+        };
+        // bisect for the first k that does not complete
+        let (mut lo, mut hi) = (0usize, 762usize);
+        runs += 2;
+        let c_lo = probe(runner, lo, &mut violations);
+        let c_hi = probe(runner, hi, &mut violations);
+        let mut boundary: Option<usize> = None;
+        if c_lo == 0 && c_hi != 0 {
+            while hi - lo > 1 {
+                let mid = (lo + hi) / 2;
+                runs += 1;
+                if probe(runner, mid, &mut violations) == 0 {
+                    lo = mid;
+                } else {
+                    hi = mid;
+                }
+            }
+            boundary = Some(hi);
+            let from = hi.saturating_sub(20);
+            let mut seen_overflow = false;
+            for k in from..=(hi + 20).min(762) {
+                runs += 1;
+                let c = probe(runner, k, &mut violations);
+                if c == 1 {
+                    seen_overflow = true;
+                } else if c == 0 && seen_overflow {
+                    violations.push((format!("[uncaught_overflow_at_frame_entry: {}] the program with {} pending values completed although one with fewer overflowed", name, k), json!({"family": "uncaught_overflow_at_frame_entry", "cell": format!("{} {}", name, k), "problem": "not monotone"})));
+                }
+            }
+        }
+        (name, boundary, runs, violations)
+    });
+    let mut n = 0;
+    let mut violations = Vec::new();
+    for (name, boundary, runs, v) in results {
+        n += runs;
+        if boundary.is_none() && v.is_empty() {
+            crate::pool::machinery_failure(&format!("C02: the sweep `{}` never reached the operand stack's limit (vacuous)", name));
+        }
+        // one artefact per distinct problem text is enough
+        let mut seen = std::collections::HashSet::new();
+        for (d, a) in v {
+            let key = a.get("problem").map(|p| p.to_string()).unwrap_or_default();
+            if seen.insert(key) {
+                violations.push((d, a));
+            }
+        }
+    }
+    (n, violations)
+}
+
 fn deep_nesting_cases(thorough: bool) -> Vec<Case> {
     let mut out = Vec::new();
     let depths: Vec<usize> = if thorough { vec![30_000, 100_000, 200_000, 1_000_000] } else { vec![100_000, 200_000] };
@@ -583,6 +694,11 @@ pub fn run(ctx: &Ctx) -> Report {
     let mut acc = Acc::default();
     acc.evaluations += n_boundary;
     acc.violations.extend(boundary_violations);
+    let (n_entry, entry_violations) = uncaught_overflow_at_frame_entry(ctx);
+    let n = n + n_entry;
+    acc.evaluations += n_entry;
+    acc.violations.extend(entry_violations);
+    *acc.by_family.entry("uncaught_overflow_at_frame_entry".into()).or_insert(0) += n_entry;
     *acc.by_family.entry("operand_stack_boundary".into()).or_insert(0) += n_boundary;
     for (k, v) in boundary_hist {
         *acc.outcomes.entry(format!("boundary: {}", k)).or_insert(0) += v;
@@ -619,7 +735,7 @@ pub fn run(ctx: &Ctx) -> Report {
     report.cov("traces_validated_against_impl", json!(acc.evaluations));
     report.cov("distinct_nontrivial", json!(acc.cells.len()));
     report.cov("exhaustive", json!(true));
-    report.cov("rule", json!("native sweep: every built-in method of every value class (and the class-side methods of String, Fiber, Error, StopIter) on a receiver of the right class and on an instance of a class derived from it, with every argument tuple of the native's arity over a 46-value adversarial pool (43 values plus the receiver itself, a tuple and a vec holding it) (quick tier: a third of the two-argument tuples on derived receivers), plus one argument fewer and one more; every native reached through super from an instance method and from a static method of a class derived from the built-in class; operator sweep: 20 unary constructs x every pool value, 6 binary constructs x every ordered pair, slices over 8x8 bounds; resource grid: recursion depth {1..70} x frame width {1..250} and wide argument lists, the operand stack swept across its limit one slot at a time (3 052 programs: recursion depth 30/31/32 with 2 x 254 pending literal elements per level and 0..762 more at the bottom, also inside a fiber; each must complete or report a catchable `Stack overflow.`, monotonically), nesting ladders to depth 10^4 for nine data shapes on the checked runner and to 2x10^5 / 10^6 on the optimised runner on a thread with an ordinary 8 MiB stack (tracing, printing, comparing, hashing and dropping data that deep), every uncaught-error program of C17's generator (the error report must not panic), every program of the C08, C06 and C18 generators and every fifth one of the C07 and C05 generators at their quick bounds (about 52k programs; all of them in the thorough tier: whatever a program means, running it does not panic), the loop-exit shapes of C08 (a loop around two try-like constructs, a loop around a try-like construct holding an inner loop followed by a second one, every leaf that leaves or crosses them) at script level inside a loop that repeats them forty times (a slot popped too many or too few per exit runs off the operand stack), 23 self-reference / mutation-during-iteration / fiber misuse programs. oracle: the run ends Ok or with a reported error; never a panic, crash or hang; a failing built-in call wrapped in try/catch reaches the handler with an instance of an error class. distinct = distinct (construct, argument-kind tuple) cells."));
+    report.cov("rule", json!("native sweep: every built-in method of every value class (and the class-side methods of String, Fiber, Error, StopIter) on a receiver of the right class and on an instance of a class derived from it, with every argument tuple of the native's arity over a 46-value adversarial pool (43 values plus the receiver itself, a tuple and a vec holding it) (quick tier: a third of the two-argument tuples on derived receivers), plus one argument fewer and one more; every native reached through super from an instance method and from a static method of a class derived from the built-in class; operator sweep: 20 unary constructs x every pool value, 6 binary constructs x every ordered pair, slices over 8x8 bounds; resource grid: recursion depth {1..70} x frame width {1..250} and wide argument lists, the operand stack swept across its limit one slot at a time (3 052 programs: recursion depth 30/31/32 with 2 x 254 pending literal elements per level and 0..762 more at the bottom, also inside a fiber; each must complete or report a catchable `Stack overflow.`, monotonically; and the same overflow left uncaught where a frame is entered straight after a push - plain call, import, for over a user-defined iterable, constructor, method, library callback, fiber, interpolation - with the number of pending values bisected to the interpreter's own limit and every count within 20 of it run: the report is made without a panic), nesting ladders to depth 10^4 for nine data shapes on the checked runner and to 2x10^5 / 10^6 on the optimised runner on a thread with an ordinary 8 MiB stack (tracing, printing, comparing, hashing and dropping data that deep), every uncaught-error program of C17's generator (the error report must not panic), every program of the C08, C06 and C18 generators and every fifth one of the C07 and C05 generators at their quick bounds (about 52k programs; all of them in the thorough tier: whatever a program means, running it does not panic), the loop-exit shapes of C08 (a loop around two try-like constructs, a loop around a try-like construct holding an inner loop followed by a second one, every leaf that leaves or crosses them) at script level inside a loop that repeats them forty times (a slot popped too many or too few per exit runs off the operand stack), 23 self-reference / mutation-during-iteration / fiber misuse programs. oracle: the run ends Ok or with a reported error; never a panic, crash or hang; a failing built-in call wrapped in try/catch reaches the handler with an instance of an error class. distinct = distinct (construct, argument-kind tuple) cells."));
     report.cov("bounds", json!({"pool_values": pool().len(), "cases": n}));
     report.cov("by_family", json!(acc.by_family));
     report.cov("outcome_histogram", json!(acc.outcomes));
